@@ -609,6 +609,28 @@ def load(repo=REPO, extra_flags=(), use_cache=True):
         for n in f.all_nodes({'CallExpr', 'CXXMemberCallExpr'}):
             if n.get('indirect'):
                 raise AnalysisBroken('indirect call at %s: call graph not closed' % f.loc(n['id']))
+    # anchors: the members that the layout transcription (spec/c3d_layout.json) and the finite models name must exist under these names;
+    # a renamed / regrouped member is an analysis-broken tree (exit 2), never a verdict
+    try:
+        with open(os.path.join(VERIF, 'spec', 'c3d_layout.json')) as fh:
+            spec = json.load(fh)
+        want = {'ezc3d::Header': [x.get('member') for x in spec.get('header', []) if x.get('member')]}
+    except Exception:
+        want = {}
+    want.setdefault('ezc3d::ParametersNS::GroupNS::Parameter', []).extend(['_data_type', '_dimension', '_param_data_int', '_param_data_float', '_param_data_string', '_name', '_description', '_isLocked'])
+    want.setdefault('ezc3d::ParametersNS::GroupNS::Group', []).extend(['_name', '_description', '_isLocked', '_parameters'])
+    want.setdefault('ezc3d::ParametersNS::Parameters', []).extend(['_groups', '_parametersStart', '_checksum', '_nbParamBlock', '_processorType'])
+    want.setdefault('ezc3d::DataNS::Data', []).extend(['_frames'])
+    want.setdefault('ezc3d::DataNS::Frame', []).extend(['_points', '_analogs'])
+    want.setdefault('ezc3d::c3d', []).extend(['_header', '_parameters', '_data'])
+    for cq, names in want.items():
+        c = p.classes.get(cq)
+        if c is None:
+            raise AnalysisBroken('anchor vanished: class %s' % cq)
+        have = {fl['name'] for fl in c['fields']}
+        missing = [n_ for n_ in names if n_ not in have]
+        if missing:
+            raise AnalysisBroken('anchor vanished: %s no longer has member(s) %s (renamed or regrouped: the layout transcription and the models name them)' % (cq.split('::')[-1], missing))
     return p
 
 
